@@ -667,7 +667,15 @@ func checkAs(c *Ctx, named map[string]string, name, what string, bad func(o supO
 	}
 }
 
-func init() { c05Extra = func(c *Ctx) { c05History(c); c05HistoryPassive(c); c05T7Dwell(c); c05LateWrite(c) } }
+func init() {
+	c05Extra = func(c *Ctx) {
+		c05History(c)
+		c05HistoryPassive(c)
+		c05T7Dwell(c)
+		c05LateWrite(c)
+		c10RacePublish(c, c.Pick(12, 60)) /* the deterministic Close-vs-publish race on every transport: C05's after-Close clause (seeded C05a-2 / C05b-2 / C05c-2) */
+	}
+}
 
 var c05Extra func(*Ctx)
 
